@@ -72,6 +72,8 @@ pub open spec fn ps_shape(s: Statement) -> bool decreases s {
         StatementKind::Assignment { target, value, .. } => pa_shape(target) && pe_shape(value),
         StatementKind::Definition { ty, value, .. } => pe_shape(value) && pt_ok(ty),
         StatementKind::ExternalDefinition { ty, .. } => pt_ok(ty),
+        StatementKind::Blob { fields, .. } => forall|k: Identifier| #[trigger] fields@.contains_key(k) ==> pt_ok(fields@[k]),
+        StatementKind::Enum { variants, .. } => forall|k: Identifier| #[trigger] variants@.contains_key(k) ==> pt_ok(variants@[k]),
         StatementKind::Loop { condition, body } => pe_shape(condition) && ps_shape(*body),
         StatementKind::Ret { value } => match value { Some(v) => pe_shape(v), None => true },
         StatementKind::Block { statements } => forall|i: int| 0 <= i < statements.len() ==> ps_shape(#[trigger] statements[i]),
